@@ -70,7 +70,9 @@ def mentions_err_guard(c):
             found[0] = True
         if x[0] == 'path' and 'CreateModuleError' in str(x[1]):
             found[0] = True
-        if x[0] == 'eq' and any(isinstance(y, tuple) and y and y[0] == 'f' and y[2] == 'binding_index' for y in x[1:3]):
+        import roles as R
+        idx_f = (R.binding_roles(E.load())[0] or R.DEFAULT)['index']
+        if x[0] == 'eq' and any(isinstance(y, tuple) and y and y[0] == 'f' and y[2] == idx_f for y in x[1:3]):
             found[0] = True
     E.walk(c, f)
     return found[0]
@@ -704,12 +706,16 @@ class Model:
         self.layouter = V('Layouter', table={h: V('naga::proc::TypeLayout', size=s, alignment=4) for h, s in self.sizes.items()})
         # the collections the generator builds from the module (their construction is decided by C11 / C03 / C08 rules)
         groups = {}
+        import roles as R
+        roles, rec = R.binding_roles(E.load())     # field names of the collected-binding record, by provenance
+        if roles is None:
+            roles, rec = R.DEFAULT, 'crate::bindgroup::GroupBinding'
         for h, g in self.globals:
             b = g.fields['binding']
             if b is not None:
                 rb = b[1]
-                groups.setdefault(rb.fields['group'], []).append(V('crate::bindgroup::GroupBinding', name=g.fields['name'], binding_index=rb.fields['binding'],
-                                                                   binding_type=self.types[g.fields['ty'][2]][1], address_space=g.fields['space']))
+                groups.setdefault(rb.fields['group'], []).append(V(rec, **{roles['name']: g.fields['name'], roles['index']: rb.fields['binding'],
+                                                                          roles['type']: self.types[g.fields['ty'][2]][1], roles['space']: g.fields['space']}))
         self.group_map = collections.OrderedDict((k, V('crate::bindgroup::GroupData', bindings=v)) for k, v in sorted(groups.items()))
         closure = set()
 
